@@ -85,6 +85,31 @@ def c_seg_case(case, out):
     return "(%s, %s, %s)" % (FCOQ[case["field"]], rows, clist([cv(v) for v in out]))
 
 
+def gen_reduce_case(rng):
+    p1 = rng.randint(-1500, 1500)
+    return [p1, p1 + rng.choice([1, 7, 90, 180, 270, 359, 360, rng.randint(1, 360)])]
+
+
+def impl_reduce(cases):
+    """the section angles BHJM_cylinder_segment hands to its core, in degrees (the prologue reduces them)"""
+    seen = {}
+
+    def stub(observers, dimensions, magnetizations):
+        seen["dim"] = np.array(dimensions, dtype=float)
+        return np.zeros((len(observers), 3))
+    dims = np.array([[1.0, 2.0, 1.0, c[0], c[1]] for c in cases], dtype=float)
+    obs = np.tile([7.0, 3.0, 5.0], (len(cases), 1))          # far outside: no surface rows are dropped
+    old = SEGMOD.magnet_cylinder_segment_Hfield
+    SEGMOD.magnet_cylinder_segment_Hfield = stub
+    try:
+        SEGMOD.BHJM_cylinder_segment("H", obs, dims, np.tile([0.0, 0.0, 1.0], (len(cases), 1)))
+    finally:
+        SEGMOD.magnet_cylinder_segment_Hfield = old
+    if len(seen["dim"]) != len(cases):
+        raise ValueError("rows were dropped before the core call")
+    return octa.ints(np.degrees(seen["dim"][:, 2:4]), tol=1e-6)
+
+
 # ------------------------------------------------------------------ (b) mesh constructors, (c) to_TriangleCollection
 SKIP = {"check_open": "skip", "check_disconnected": "skip", "check_selfintersecting": "skip", "reorient_faces": "skip"}
 
@@ -312,6 +337,20 @@ def exact_correspondence(ctx, built):
             for bi in bad[:3]:
                 ctx.add_broken("broken-correspondence", "seg_internal model vs BHJM_cylinder_segment_internal",
                                json.dumps({"case": kept[bi][0], "impl": kept[bi][1]}))
+    # (a') the angle reduction prologue of BHJM_cylinder_segment
+    rcases = [gen_reduce_case(rng) for _ in range(ctx.n(300, 2000))]
+    rout = impl_reduce(rcases)
+    for c, o in zip(rcases, rout):
+        ctx.case(("reduce", tuple(c)), c[1] > 360 or c[0] < -360)
+        ctx.bump("reduce:" + ("above" if c[1] > 360 else "below" if c[0] < -360 else "in-range"))
+    if built:
+        bad = run_checker(ctx, "reduce", "reduce_case", "reduce_case_ok",
+                          ["(%s, %s, %s, %s)" % (cz(c[0]), cz(c[1]), cz(o[0]), cz(o[1])) for c, o in zip(rcases, rout)], chunk=2000)
+        if bad is not None:
+            ctx.count("traces_validated_against_impl", len(rcases) - len(bad))
+            for bi in bad[:3]:
+                ctx.add_broken("broken-correspondence", "seg_reduce model vs BHJM_cylinder_segment prologue",
+                               json.dumps({"angles": rcases[bi], "impl": rout[bi]}))
     # (b)+(c) meshes
     mesh_cases = [gen_mesh_case(rng) for _ in range(ctx.n(250, 1000))]
     mitems, titems, mk = [], [], []
